@@ -86,8 +86,12 @@ def cases(tier, seed):
             out.append(dict(cls="symbolic-nonhermitian", order=order, nsym=nsym, total=3))
             # the same with second-quantised operators in H_0 (the offending term itself is a c-number)
             if order >= 1:
-                for ops in ("boson-h0", "boson-h0-and-h1"):
+                for ops in ("boson-h0", "boson-h0-and-h1", "boson-term"):
                     out.append(dict(cls="symbolic-nonhermitian", order=order, nsym=nsym, total=3, ops=ops))
+    # scalar (non-matrix) second-quantised expressions whose order-m coefficient is not Hermitian
+    for order in (0, 1, 2):
+        for bad in ("cnumber", "operator", "missing-hc"):
+            out.append(dict(cls="symbolic-nonhermitian-scalar", order=order, bad=bad, total=3))
     # (k) threshold probes
     for rel in ("1e-7", "1e-3", "0"):
         for rep in ("dense", "csr"):
@@ -160,7 +164,7 @@ def run_case(case):
 
 
 def describe_short(case):
-    keys = ("sizes", "E", "fd", "pos", "repr", "hermitian", "defect", "order", "nsym", "rel", "big", "ops", "others")
+    keys = ("sizes", "E", "fd", "pos", "repr", "hermitian", "defect", "order", "nsym", "rel", "big", "ops", "others", "bad")
     return {k: case[k] for k in keys if k in case}
 
 
@@ -481,6 +485,8 @@ def run_symbolic_nonhermitian(case):
         if case["ops"] == "boson-h0-and-h1":  # a Hermitian operator-valued term at an order other than m
             other = 1 if m != 1 else 2
             H = H + x**other * sympy.Matrix([[0, a, 0], [Dagger(a), 0, 0], [0, 0, 0]])
+        if case["ops"] == "boson-term":  # the offending term itself is operator valued: a in both [0,2] and [2,0]
+            H = H - bad * x**m + x**m * sympy.Matrix([[0, 0, a], [0, 0, 0], [a, 0, 0]])
     V = []
     try:
         with warnings.catch_warnings():
@@ -515,6 +521,49 @@ def run_symbolic_nonhermitian(case):
         V.append(f"non-Hermitian symbolic term at order x^{m} in Hermitian mode: H_tilde at that order was answered {direct[:2]}")
     if m == 0 and answered_needing:
         V.append("non-Hermitian H_0 in Hermitian mode was accepted and elements answered")
+    return V, True, "constructed"
+
+
+def run_symbolic_nonhermitian_scalar(case):
+    import sympy
+    from sympy.physics.quantum import Dagger
+    from sympy.physics.quantum.boson import BosonOp
+
+    from pymablock import block_diagonalize
+
+    a = BosonOp("a")
+    x = sympy.Symbol("x", real=True)
+    w = sympy.Symbol("omega", positive=True)
+    m = case["order"]
+    H = w * Dagger(a) * a + x * (a + Dagger(a)) + x**2 * (a**2 + Dagger(a) ** 2)
+    bad = {"cnumber": sympy.I, "operator": sympy.I * Dagger(a) * a, "missing-hc": a**3}[case["bad"]]
+    if m == 0 and case["bad"] == "missing-hc":
+        return [], False, "not-applicable"  # a number-changing H_0 is a different class (H_0 not diagonal)
+    H = H + bad * x**m
+    V = []
+    try:
+        with warnings.catch_warnings():
+            warnings.simplefilter("ignore")
+            outs = block_diagonalize(H, symbols=[x])
+    except REJECTIONS:
+        return [], True, "rejected-at-construction"
+    except Exception as e:  # noqa: BLE001
+        return [f"raises {type(e).__name__}: {str(e)[:100]} at construction"], True, "bad"
+    answered = []
+    for n in range(case["total"] + 1):
+        try:
+            with warnings.catch_warnings():
+                warnings.simplefilter("ignore")
+                outs[0][0, 0, n]
+        except REJECTIONS:
+            continue
+        except Exception as e:  # noqa: BLE001
+            V.append(f"Ht[0,0,{n}] raises {type(e).__name__}: {str(e)[:80]}")
+            continue
+        if n >= max(m, 1):
+            answered.append(n)
+    if max(m, 1) in answered:
+        V.append(f"scalar second-quantised input with a non-Hermitian {case['bad']} term at order x^{m}: H_tilde at order {max(m, 1)} was answered")
     return V, True, "constructed"
 
 
